@@ -2,10 +2,10 @@ import TongoModel.Tlb.SExp
 /-! Text form of type descriptors on protocol lines (the harness prints what its reflection walk — the same walk that
 generates `TongoGen/TlbTypes.lean` — finds for the type at run time). Read through the `Val` parser:
 
-  ty := (:u|n) (:i|n) :b (:y|n) :c (:p|T/F|ty) (:s|(ft|ty)…) (:+|(:Name|tag|ty)…) (:n|:id) (:g|tag) (:?|ty)
+  ty := (:u|n) (:i|n) :b (:y|n) :c (:p|T/F|ty) (:s|(ft|ty)…) (:+|(:Name|tag|ty)…) (:n|idx) (:g|tag) (:?|ty)
         (:e|ty|ty) (:er|ty) (:^|ty) (:P|:prim[|n]) (:vs|ty) (:ee|:id) (:o|:id)
   ft := :p | :r | :m | :mr | :bad            tag := (len|val) | ~
-  env := () | ((:id|ty)|…) -/
+  env := () | (ty|…)            `(:n|i)` refers to the i-th entry -/
 namespace Tongo.Tlb.TyText
 open Tongo Tongo.Tlb
 
@@ -58,7 +58,7 @@ def tyOf : Nat → Val → Option Ty
     | .cons (.sym "p") (.cons (.bool m) (.cons t .nil)) => (tyOf fuel t).map (.ptr m)
     | .cons (.sym "s") fs => (fieldsOf fuel fs).map .struct
     | .cons (.sym "+") cs => (ctorsOf fuel cs).map .sum
-    | .cons (.sym "n") (.cons (.sym id) .nil) => some (.named id)
+    | .cons (.sym "n") (.cons (.int id) .nil) => some (.named id.toNat)
     | .cons (.sym "g") (.cons tg .nil) => (tagOf tg).map .magic
     | .cons (.sym "?") (.cons t .nil) => (tyOf fuel t).map .maybe
     | .cons (.sym "e") (.cons l (.cons r .nil)) => do
@@ -70,6 +70,7 @@ def tyOf : Nat → Val → Option Ty
     | .cons (.sym "P") (.cons (.sym name) .nil) => (primOf name none).map .prim
     | .cons (.sym "P") (.cons (.sym name) (.cons (.int n) .nil)) => (primOf name (some n.toNat)).map .prim
     | .cons (.sym "vs") (.cons t .nil) => (tyOf fuel t).map .vmStack
+    | .cons (.sym "de") (.cons (.sym id) .nil) => some (.dictE id)
     | .cons (.sym "ee") (.cons (.sym id) .nil) => some (.encErr id)
     | .cons (.sym "o") (.cons (.sym id) .nil) => some (.opaque id)
     | _ => none
@@ -101,17 +102,18 @@ def parseTy (s : String) : Option Ty := do
   let v ← SExp.parse s
   tyOf (valSize v + 1) v
 
-def envOf : Val → Option (List (String × Ty))
+def envOf : Val → Option (List Ty)
   | .nil => some []
-  | .cons (.cons (.sym id) (.cons t .nil)) rest => do
+  | .cons t rest => do
     let t ← tyOf (valSize t + 1) t
     let rest ← envOf rest
-    pure ((id, t) :: rest)
+    pure (t :: rest)
   | _ => none
 
 def parseEnv (s : String) : Option Env := do
   let v ← SExp.parse s
   let l ← envOf v
-  pure fun id => (l.find? (·.1 == id)).map (·.2)
+  let a := l.toArray
+  pure fun id => a[id]?
 
 end Tongo.Tlb.TyText
